@@ -39,7 +39,7 @@ def equiv(a, b):
 def run(tier, seed, rng):
     combos = [(True, True, True, True), (False, False, False, False), (False, True, False, False), (True, False, True, True)] \
         if tier == 'quick' else list(itertools.product((True, False), repeat=4))
-    nbase = 36 if tier == 'quick' else 150
+    nbase = 36 if tier == 'quick' else 400
     groups, families = [], []
     gid = 0
     for b in range(nbase):
